@@ -374,12 +374,14 @@ ENC_CLASS = {'UTF-8': 'utf-8', 'utf-8': 'utf-8', 'UTF-16': 'utf-16', 'UTF-16LE':
 PRIORITY = ['lone-high', 'lone-low', 'nul', 'nonchar', 'c0', 'default-ignorable', 'c1', 'del', 'nel', 'ls', 'cr', 'crlf', 'cdata-end', 'rsb2', 'rsb', 'supplementary']
 
 
-def reduce_class(klass):
+def reduce_class(klass, enc='UTF-8'):
     """context|item+item -> context|the item class most likely to matter (keeps violation keys few and stable)"""
     if '|' not in klass:
         return klass
     ctxt, items = klass.split('|', 1)
     items = items.split('+')
+    if 'default-ignorable' in items and enc_class(enc) == 'non-unicode' and not any(i in items for i in PRIORITY[:4]):
+        return '%s|default-ignorable' % ctxt
     for p in PRIORITY:
         if p in items:
             return '%s|%s' % (ctxt, p)
@@ -539,7 +541,7 @@ def case(ctx, idx, res):
         outs[which] = rp
         j = judge(rp, exp, enc, ver, unrep)
         if j:
-            res.viol('%s|%s|%s|%s|%s' % (which, j[0].split('|')[0], reduce_class(klass), enc_class(enc), ver),
+            res.viol('%s|%s|%s|%s|%s' % (which, j[0].split('|')[0], reduce_class(klass, enc), enc_class(enc), ver),
                      '%s, encoding %s, XML %s, %s: %s' % (which, enc, ver, klass, j[1]), payload)
         else:
             res.count('round_trips' if not unrep else 'refused_as_required')
@@ -626,7 +628,7 @@ def xslt_case(ctx, idx, res):
     rp = {'status': b'0' if rx.status == 0 else b'1', 'out': rx.out, 'exception': rx.err.encode('utf-8')}
     j = judge(rp, exp, enc, ver, unrep)
     if j:
-        res.viol('transform|%s|%s|%s|%s' % (j[0].split('|')[0], reduce_class(klass), enc_class(enc), ver),
+        res.viol('transform|%s|%s|%s|%s' % (j[0].split('|')[0], reduce_class(klass, enc), enc_class(enc), ver),
                  'xsl:output encoding=%s version=%s cdata-section-elements=%s, %s: %s' % (enc, ver, cdata_names, klass, j[1]), payload)
     else:
         res.count('transform_round_trips' if not unrep else 'transform_refused_as_required')
